@@ -5,7 +5,8 @@
    Notation: Jf s / Yf s / Wf s / Af s / bf s are the J_, Y_, W_, Ac_, Bc_ of state s viewed as functions; for a vector z
    [cost n k J Y z] = sum_{r<n} ((J z)_r - Y_r)^2 and [grad n k J Y z i] = (J^T (J z - Y))_i over the first n rows. *)
 From Coq Require Import Reals List Arith Lia Lra Bool.
-From Romea Require Import Num NumR LinAlgBModel LinAlgBProofs LsModel LsProofs LsHistoryProofs LsWeighted LsEndToEnd.
+From Romea Require Import Num NumR LinAlgBModel LinAlgBProofs LsModel LsProofs LsHistoryProofs LsWeighted LsEndToEnd SrcEigenDyn SrcEigenDynFacts SrcTieLs SrcTieC07.
+From Romea.gen Require Import SrcLs.
 Import ListNotations.
 Local Open Scope R_scope.
 
@@ -283,4 +284,134 @@ Example C07_end_to_end_premises_satisfiable :
 Proof.
   intros inv svd. eexists. eexists. split; [reflexivity|]. eexists. eexists. split; [reflexivity|].
   split; intros i j Hi Hj; assert (i = 0%nat) by lia; assert (j = 0%nat) by lia; subst; cbn; unfold delta; cbn; field.
+Qed.
+
+(* ================================================================================================================
+   SYNTACTIC SOURCE TIE (SrcTieC07.v).  gen/SrcLs.v is regenerated on every run by translate/tr_C07_ls.py from the clang AST of
+   src/regression/leastsquares/LeastSquares.cpp: the record [src_ls] of the ten data members and one Gallina transformer per member
+   function of LeastSquares<RealType> (vocabulary of dynamic-size Eigen operations: SrcEigenDyn.v).  [abs] reads that record as the
+   model's state (the model has no JtJ_ / JtY_: the first theorem is why it needs none); [src_dims] = the shapes the class keeps;
+   [LsDictOK N] = the dictionary reads the literals 1 / 1.0 as n_one and its product commutes (reals, IEEE floats);
+   the Eigen solvers are the oracle arguments ldlt_solve / jacobi_svd of the generated terms, the model's oracles are their readings
+   inverse_of_src / svd_of_src; [ldlt_dims] / [svd_dims] = Eigen returns results of the right shape.
+   Every statement holds for EVERY numeric dictionary satisfying LsDictOK.
+   ================================================================================================================ *)
+
+(* computeJTJ_ / computeJTY_ as written (the two nested counted loops with col(i).head(dataSize_).dot(..)) leave in JtJ_ / JtY_ the
+   tables of the dot products over the FIRST dataSize_ ROWS, whatever JtJ_ / JtY_ held before and whatever the rows of J_ / Y_ beyond
+   dataSize_ hold (leftovers of a larger problem): the normal equations are those of the current problem only *)
+Theorem C07_source_tie_ls_normal_equations_of_current_rows :
+  forall (T : Type) (N : NumOps T), LsDictOK N -> forall s : src_ls (T:=T),
+  src_dims s -> (dataSize_ s <= dm_nrows (J_ s))%nat ->
+  src_computeJTJ_ N s = with_JtJ s (mkdm (estimateSize_ s) (ls_JtJ N (abs s))) /\
+  src_computeJTY_ N s = with_JtY s (ls_JtY N (abs s)).
+Proof. exact (fun T N D s Hd Hn => conj (tie_computeJTJ N D s Hd Hn) (tie_computeJTY N s Hd Hn)). Qed.
+Print Assumptions C07_source_tie_ls_normal_equations_of_current_rows.
+
+(* constructors, setEstimateSize, setDataSize (GROW-ONLY buffers: reallocation exactly when Y_.rows() < dataSize, then W_ = ones),
+   both setPreconditionner overloads (the one-argument overload resets Bc_ to zero), and the row store through getJ() / getY() / getW() *)
+Theorem C07_source_tie_ls_constructors_and_setters :
+  forall (T : Type) (N : NumOps T) (fill : T), LsDictOK N ->
+  abs (src_new0 (T:=T)) = ls_new0 /\
+  (forall k, abs (src_new1 N k) = ls_new1 N k /\ src_dims (src_new1 N k)) /\
+  (forall k n, abs (src_new2 N k n) = ls_new2 N k n /\ src_dims (src_new2 N k n)) /\
+  (forall k (s : src_ls (T:=T)), abs (src_setEstimateSize N k s) = ls_set_estimate_size N k (abs s)) /\
+  (forall n (s : src_ls (T:=T)), (abs (fst (src_setDataSize N fill n s)), snd (src_setDataSize N fill n s)) = ls_set_data_size N fill n (abs s)) /\
+  (forall A b (s : src_ls (T:=T)), abs (src_setPreconditionner2 A b s) = ls_set_precond (dm_rows A) b (abs s)) /\
+  (forall A (s : src_ls (T:=T)), abs (src_setPreconditionner1 N A s) = ls_set_precond_A N (dm_rows A) (abs s)) /\
+  (forall i row y w (s : src_ls (T:=T)), ls_wf (abs s) -> ls_row_ok i row (abs s) = true ->
+     Some (abs (src_set_row N i row y w s)) = ls_set_row i row y w (abs s)).
+Proof.
+  exact (fun T N fill D =>
+    conj (tie_new0 (T:=T)) (conj (fun k => conj (tie_new1 N k) (dims_new1 N k)) (conj (fun k n => conj (tie_new2 N k n) (dims_new2 N k n))
+    (conj (tie_setEstimateSize N) (conj (tie_setDataSize N fill D) (conj (tie_setPreconditionner2 (T:=T))
+    (conj (tie_setPreconditionner1 N) (tie_set_row N)))))))).
+Qed.
+Print Assumptions C07_source_tie_ls_constructors_and_setters.
+
+(* the three estimate paths as written — estimateUsingCholeskyDecomposition (Ac_ * inverseJtJ_ * JtY_ + Bc_ with the LDLT solve against
+   Identity), estimateUsingSVD (singular values above epsilon * sigma_0 inverted, the others left, V * D * U^T), weightedEstimate (in-place
+   weighting of the first dataSize_ rows, then the Cholesky path) — and weightJAndY_ are the model's, state and returned vector *)
+Theorem C07_source_tie_ls_estimate_paths :
+  forall (T : Type) (N : NumOps T) ldlt_solve jacobi_svd, LsDictOK N -> ldlt_dims ldlt_solve -> svd_dims jacobi_svd ->
+  forall s : src_ls (T:=T), src_dims s -> ls_wf (abs s) -> ls_est_ok (abs s) = true ->
+  Some (abs (fst (src_estimateUsingCholeskyDecomposition N ldlt_solve s)), snd (src_estimateUsingCholeskyDecomposition N ldlt_solve s))
+    = ls_estimate_chol N (inverse_of_src N ldlt_solve) (abs s) /\
+  Some (abs (fst (src_estimateUsingSVD N jacobi_svd s)), snd (src_estimateUsingSVD N jacobi_svd s))
+    = ls_estimate_svd N (svd_of_src jacobi_svd) (abs s) /\
+  abs (src_weightJAndY_ N s) = ls_weight N (abs s) /\
+  Some (abs (fst (src_weightedEstimate N ldlt_solve s)), snd (src_weightedEstimate N ldlt_solve s))
+    = ls_weighted_estimate N (inverse_of_src N ldlt_solve) (abs s).
+Proof.
+  exact (fun T N ld sv D Hl Hs s Hd Hw Hok =>
+    conj (tie_chol N ld D s Hl Hd Hw Hok) (conj (tie_svd N sv D s Hs Hd Hw Hok)
+    (conj (tie_weight N s Hw Hok) (tie_weighted N ld D s Hl Hd Hw Hok)))).
+Qed.
+Print Assumptions C07_source_tie_ls_estimate_paths.
+
+(* SIMULATION of every op sequence: wherever the model's run is defined (no undefined behaviour), running the GENERATED transformers
+   gives the same outputs and a state that reads as the model's — so C07_ls_invariant_every_history, C07_ls_history_independent and
+   the end-to-end minimiser theorems above speak about the member functions as written.
+   [run_dims]: every preconditioner matrix passed has estimateSize_ rows (it is read as estimateSize_ x estimateSize_) *)
+Theorem C07_source_tie_ls_state_machine_every_history :
+  forall (T : Type) (N : NumOps T) (fill : T) ldlt_solve jacobi_svd, LsDictOK N -> ldlt_dims ldlt_solve -> svd_dims jacobi_svd ->
+  forall ops (s : src_ls (T:=T)) t outs, src_dims s -> ls_wf (abs s) -> run_dims N fill ldlt_solve jacobi_svd ops s ->
+  ls_run N (inverse_of_src N ldlt_solve) (svd_of_src jacobi_svd) fill true ops (abs s) = Some (t, outs) ->
+  abs (fst (src_run N fill ldlt_solve jacobi_svd ops s)) = t /\ snd (src_run N fill ldlt_solve jacobi_svd ops s) = outs /\
+  src_dims (fst (src_run N fill ldlt_solve jacobi_svd ops s)).
+Proof. exact (fun T N fill ld sv => sim_run N fill ld sv). Qed.
+Print Assumptions C07_source_tie_ls_state_machine_every_history.
+
+(* HISTORY INDEPENDENCE ON THE CODE AS WRITTEN: after ANY history on one object (estimate size kept; defined), loading a problem and
+   calling any of the three estimate member functions returns exactly the vector a freshly constructed LeastSquares(k) returns *)
+Theorem C07_source_tie_ls_history_independence :
+  forall (T : Type) (N : NumOps T) (fill : T) ldlt_solve jacobi_svd, LsDictOK N -> ldlt_dims ldlt_solve -> svd_dims jacobi_svd ->
+  forall k hist (ms : ls_state (T:=T)) outs n rows ys ws A b est,
+  forallb keeps_estimate_size hist = true ->
+  ls_run N (inverse_of_src N ldlt_solve) (svd_of_src jacobi_svd) fill true hist (ls_new1 N k) = Some (ms, outs) ->
+  run_dims N fill ldlt_solve jacobi_svd hist (src_new1 N k) -> length A = k ->
+  (1 <= n)%nat -> (forall i, (i < n)%nat -> length (nth i rows []) = k) ->
+  est = OpEstimateChol \/ est = OpEstimateSVD \/ est = OpWeightedEstimate ->
+  let prob := load_ops N n rows ys ws ++ [OpSetPrecond A b] in
+  exists x,
+    snd (src_step N fill ldlt_solve jacobi_svd
+           (fst (src_run N fill ldlt_solve jacobi_svd prob (fst (src_run N fill ldlt_solve jacobi_svd hist (src_new1 N k))))) est) = OutVec x /\
+    snd (src_step N fill ldlt_solve jacobi_svd (fst (src_run N fill ldlt_solve jacobi_svd prob (src_new1 N k))) est) = OutVec x.
+Proof. exact (fun T N fill ld sv => src_history_independent N fill ld sv). Qed.
+Print Assumptions C07_source_tie_ls_history_independence.
+
+(* END TO END on the generated Cholesky member function, over the reals: under the LDLT contract the vector it returns is Ac z + Bc with z
+   the solution of the normal equations of the first dataSize_ rows, the global and unique minimiser *)
+Theorem C07_source_tie_ls_cholesky_returns_the_minimiser :
+  forall ldlt_solve (s : src_ls (T:=R)), ldlt_dims ldlt_solve -> src_dims s -> ls_wf (abs s) -> ls_est_ok (abs s) = true ->
+  let a := abs s in let n := ls_n a in let k := ls_k a in
+  let inv := inverse_of_src ROps ldlt_solve k (ls_JtJ ROps a) in
+  inv_contract k (ls_JtJ ROps a) inv ->
+  let x := snd (src_estimateUsingCholeskyDecomposition ROps ldlt_solve s) in
+  let z := ls_z a inv in
+  (forall i, (i < k)%nat -> vget ROps x i = Rsum k (fun l => Af a i l * z l) + bf a i) /\
+  (forall i, (i < k)%nat -> grad n k (Jf a) (Yf a) z i = 0) /\
+  (forall y, cost n k (Jf a) (Yf a) z <= cost n k (Jf a) (Yf a) y) /\
+  (forall y, cost n k (Jf a) (Yf a) y = cost n k (Jf a) (Yf a) z -> forall i, (i < k)%nat -> y i = z i).
+Proof.
+  intros ld s Hl Hd Hw Hok a n k inv Hc x z.
+  destruct (ls_chol_correct (inverse_of_src ROps ld) a _ x Hc (eq_sym (tie_chol ROps ld LsDictOK_R s Hl Hd Hw Hok))) as (H1 & H2 & _ & H4 & H5).
+  exact (conj H1 (conj H2 (conj H4 H5))).
+Qed.
+Print Assumptions C07_source_tie_ls_cholesky_returns_the_minimiser.
+
+(* non-vacuity of the tie premises: the real dictionary is LsDictOK; oracles of the right shapes exist; a defined history with its
+   run_dims exists (grow to 3 rows, set a 1 x 1 preconditioner), and the generated transformers really compute on it *)
+Example C07_source_tie_premises_satisfiable :
+  let ld := fun (M B : dmat (T:=R)) => B in
+  let sv := fun (M : dmat (T:=R)) => let I := mkdm (dm_nrows M) (mtab (dm_nrows M) (dm_nrows M) (fid ROps)) in
+                                     (I, tab (dm_nrows M) (fun _ => 1), I) in
+  LsDictOK ROps /\ ldlt_dims ld /\ svd_dims sv /\
+  src_dims (src_new1 ROps 1) /\ ls_wf (abs (src_new1 ROps 1)) /\
+  run_dims ROps 0 ld sv [OpSetDataSize 3; OpSetPrecond [[2]] [0]] (src_new1 ROps 1) /\
+  exists t outs, ls_run ROps (inverse_of_src ROps ld) (svd_of_src sv) 0 true [OpSetDataSize 3; OpSetPrecond [[2]] [0]] (ls_new1 ROps 1) = Some (t, outs).
+Proof.
+  intros ld sv. split; [exact LsDictOK_R|]. split; [intros M B; reflexivity|]. split.
+  { intros M. cbn. split; [apply dm_shape_mtab|]. split; [apply dm_shape_mtab|]. apply length_tab. }
+  split; [apply dims_new1|]. split; [apply wf_new1|]. split; [cbn; auto|]. eexists. eexists. reflexivity.
 Qed.
